@@ -193,10 +193,15 @@ std::string RouterSession::throughShapeClass(const Cn &c, Pt p, Pt q, const Poly
     // Degenerate contact: the segment enters and leaves the crossed shape exactly at shape vertices (vertices of the
     // crossed shape itself -- a diagonal pass -- or of shapes touching it).  libavoid's blocking test treats a touch
     // at a vertex as harmless, so such a segment is not seen as blocked (KF-C03-a).
+    // with a shape buffer distance the router works on the routing boxes (shapes grown by the buffer): the same degenerate contact is
+    // then between the grown boxes (rectangles only: the generators use no other polygons together with a buffer)
+    double bufd = params.count(shapeBufferDistance) ? params[shapeBufferDistance] : 0;
+    auto grown = [&](const Poly &pl) { if (bufd <= 0) return pl; RectB b = bbox(pl); return rectPoly(RectB{b.x - bufd, b.y - bufd, b.w + 2 * bufd, b.h + 2 * bufd}); };
+    const Poly gp = grown(poly);
     double t0 = 0, t1 = 1;
-    int n = (int)poly.size();
+    int n = (int)gp.size();
     for (int i = 0; i < n; i++) {
-        Pt a = poly[i], b = poly[(i + 1) % n];
+        Pt a = gp[i], b = gp[(i + 1) % n];
         double dp = cross3(a, b, p), dq = cross3(a, b, q);
         if (dp <= 0 && dq <= 0) return "";
         if (dp > 0 && dq > 0) continue;
@@ -205,13 +210,13 @@ std::string RouterSession::throughShapeClass(const Cn &c, Pt p, Pt q, const Poly
     }
     Pt e0{p.x + t0 * (q.x - p.x), p.y + t0 * (q.y - p.y)}, e1{p.x + t1 * (q.x - p.x), p.y + t1 * (q.y - p.y)};
     auto isVertex = [&](Pt e) {
-        for (auto &sk : shapes) if (sk.second.alive) for (auto &v : sk.second.poly) if (std::fabs(v.x - e.x) < 1e-7 && std::fabs(v.y - e.y) < 1e-7) return true;
+        for (auto &sk : shapes) if (sk.second.alive) for (auto &v : grown(sk.second.poly)) if (std::fabs(v.x - e.x) < 1e-7 && std::fabs(v.y - e.y) < 1e-7) return true;
         return false;
     };
     if (isVertex(e0) && isVertex(e1)) {
         // sub-class: BOTH contact points are vertices of other (touching) shapes lying in the open interior of an edge of the crossed
         // shape -- a chord between two mid-edge contacts, not a pass through one of the crossed shape's own corners
-        auto ownVertex = [&](Pt e) { for (auto &v : poly) if (std::fabs(v.x - e.x) < 1e-7 && std::fabs(v.y - e.y) < 1e-7) return true; return false; };
+        auto ownVertex = [&](Pt e) { for (auto &v : gp) if (std::fabs(v.x - e.x) < 1e-7 && std::fabs(v.y - e.y) < 1e-7) return true; return false; };
         if (!ownVertex(e0) && !ownVertex(e1)) return ":enters-and-leaves-at-shape-vertices:both-contacts-in-the-middle-of-edges-of-the-crossed-shape";
         return ":enters-and-leaves-at-shape-vertices";
     }
@@ -225,7 +230,11 @@ bool RouterSession::pathExists(const Cn &c) {
     for (auto &sk : shapes) if (sk.second.alive) {
         RectB b = bbox(sk.second.poly);
         if (ptInPolyClosed(c.e[0].pt, sk.second.poly) || ptInPolyClosed(c.e[1].pt, sk.second.poly)) continue;
-        RectB g{b.x - 1, b.y - 1, b.w + 2, b.h + 2};
+        // ... or by the shape buffer distance, when that is larger: the router keeps that clearance, so a gap narrower than twice
+        // the buffer is no path for it
+        double bufd = params.count(shapeBufferDistance) ? params[shapeBufferDistance] : 0;
+        double gr = std::max(1.0, bufd + 0.5);
+        RectB g{b.x - gr, b.y - gr, b.w + 2 * gr, b.h + 2 * gr};
         vo.polys.push_back(rectPoly(g));
     }
     return vo.solve(c.e[0].pt, c.e[1].pt, 0, false) >= 0;
